@@ -20,6 +20,7 @@ import (
 
 	"github.com/atlassian/gostatsd"
 	"github.com/atlassian/gostatsd/internal/util"
+	"github.com/atlassian/gostatsd/pkg/verifhook"
 )
 
 var (
@@ -179,6 +180,7 @@ func (p *Provider) instanceFromCache(ip gostatsd.Source) *gostatsd.Instance {
 		return instance
 	}
 	instance = p.instanceFromInformer(ip)
+	verifhook.Point("k8s.beforeMemoStore", string(ip))
 	// We are only holding the write lock while updating the cache. This may lead to concurrent calculations
 	// but this is totally fine. Performance-wise this should be a rare event (Pod's info update).
 	// Holding the lock around the whole block would prevent concurrent calculations but also ALL lookups.
@@ -441,13 +443,16 @@ type cacheInvalidationHandler struct {
 
 func (e cacheInvalidationHandler) OnAdd(obj interface{}) {
 	// Nothing to do
+	verifhook.Point("k8s.onAdd", "")
 }
 
 func (e cacheInvalidationHandler) OnUpdate(oldObj, newObj interface{}) {
 	e.maybeInvalidateCacheForPod(oldObj.(*core_v1.Pod))
+	verifhook.Point("k8s.onUpdate", "")
 }
 
 func (e cacheInvalidationHandler) OnDelete(obj interface{}) {
+	defer verifhook.Point("k8s.onDelete", "")
 	pod, ok := obj.(*core_v1.Pod)
 	if !ok {
 		tombstone, ok := obj.(cache.DeletedFinalStateUnknown)
